@@ -21,10 +21,15 @@ NoEqForm == CHOOSE x \in 1..Len(Forms(Level)) : Forms(Level)[x].kind = "noeq"
 HasNoEqForm == \E x \in 1..Len(Forms(Level)) : Forms(Level)[x].kind = "noeq"
 
 Init == code = <<>>
+\* a new file / section is opened only while an entry may still follow, so that the largest layer of the model
+\* (MaxEntries entries) carries no empty tail
+MayGrow == Count(code, LAMBDA t : t >= 1000) < MaxEntries
 NewFile == /\ Count(code, LAMBDA t : t = 0) < MaxFiles
+           /\ MayGrow
            /\ (code = <<>> \/ LastTok >= 1000)
            /\ code' = Append(code, 0)
 NewSec(s) == /\ code # <<>>
+             /\ MayGrow
              /\ (LastTok = 0 \/ LastTok >= 1000)
              /\ Count(CurFile, LAMBDA t : t >= 100 /\ t < 1000) < MaxSecs
              /\ \A i \in 1..Len(CurFile) : CurFile[i] # 100 + s
@@ -39,90 +44,97 @@ Next == \/ NewFile
         \/ \E k \in 1..Len(KeyNames), x \in 1..Len(Forms(Level)) : NewEntry(k, x)
 Spec == Init /\ [][Next]_vars
 
-files == Decode(code, Level)
-env == DefaultEnv(files)
-res == Eval(files, env)
-view == Compose(files)
-
 \* ---- laws ---------------------------------------------------------------------------------------------------
-\* the model only builds files without a section / key written twice
-InputsWellFormed == \A f \in 1..Len(files) : WellFormedFile(files[f])
+\* Every law is an operator over (fs: the file list, vw: its composed view, rs: its meaning, raw: every entry value
+\* including constants and failures); the invariant `Laws` binds these once per state (TLC re-evaluates a
+\* definition at every use, a LET binding only once) and names the law that fails.
 
-\* the two formulations of composition agree
-ComposeAgree == view = ComposeDecl(files)
-
-\* evaluation is total: a value of one of the four types for every composed key, or an error, nothing else;
-\* (determinism is by construction: Eval is an operator, TLC evaluates it to one value per input)
-SecKeys == UNION { { <<view[i].name, view[i].entries[j].key>> : j \in 1..Len(view[i].entries) }
-                   : i \in { m \in 1..Len(view) : view[m].name # "constants" } }
-RECURSIVE GoodVal(_)
-GoodVal(v) == \/ v.t = "str" /\ v.n = 0 /\ v.a = <<>>
-              \/ v.t = "int" /\ v.s = "" /\ v.a = <<>>
-              \/ v.t = "bool" /\ v.s = "" /\ v.n \in {0, 1} /\ v.a = <<>>
-              \/ v.t = "arr" /\ v.s = "" /\ v.n = 0 /\ \A i \in 1..Len(v.a) : v.a[i].t \in {"str", "bool"} /\ GoodVal(v.a[i])
-Total == /\ res.o \in {"ok", "error", "open"}
-         /\ \A t \in res.vals : GoodVal(t.v)
-         /\ \A t1, t2 \in res.vals : (t1.sec = t2.sec /\ t1.key = t2.key) => t1 = t2
-         /\ res.o = "error" => (res.vals = {} /\ res.openkeys = {})
-         /\ res.o = "ok" => (res.openkeys = {} /\ { <<t.sec, t.key>> : t \in res.vals } = SecKeys)
-         /\ res.o = "open" => (res.openkeys # {} \/ TRUE) /\ ({ <<t.sec, t.key>> : t \in res.vals } \cup res.openkeys) \subseteq SecKeys
-
-\* every entry value including constants and failures, for the laws below
-RawVals(vw) ==
+\* every entry value including constants and failures
+RawVals(vw, en) ==
     LET c == Pos(vw, LAMBDA x : x.name = "constants")
-        cres == IF c = 0 THEN <<>> ELSE EvalEntries(vw[c].entries, 1, EmptyF, EmptyF, <<>>, env)
+        cres == IF c = 0 THEN <<>> ELSE EvalEntries(vw[c].entries, 1, EmptyF, EmptyF, <<>>, en)
         consts == AsFun(cres)
-        secres == [i \in 1..Len(vw) |-> IF i = c THEN cres ELSE EvalEntries(vw[i].entries, 1, consts, EmptyF, <<>>, env)]
+        secres == Force([i \in 1..Len(vw) |-> IF i = c THEN cres ELSE EvalEntries(vw[i].entries, 1, consts, EmptyF, <<>>, en)])
     IN UNION { { [sec |-> vw[i].name, key |-> secres[i][j].key, v |-> secres[i][j].v] : j \in 1..Len(secres[i]) } : i \in 1..Len(vw) }
 Restrict(fs, names) == [f \in 1..Len(fs) |-> SelectSeq(fs[f], LAMBDA s : s.name \in names)]
+SeqSet(q) == { q[i] : i \in 1..Len(q) }
+SecNamesOf(vw) == { vw[i].name : i \in 1..Len(vw) }
+KeySeq(vw, n) == LET i == Pos(vw, LAMBDA x : x.name = n) IN IF i = 0 THEN <<>> ELSE [j \in 1..Len(vw[i].entries) |-> vw[i].entries[j].key]
+EntryOf(vw, n, k) == LET i == Pos(vw, LAMBDA x : x.name = n) IN vw[i].entries[Pos(vw[i].entries, LAMBDA en : en.key = k)]
+
+\* the model only builds files without a section / key written twice
+InputsWellFormed(fs) == \A f \in 1..Len(fs) : WellFormedFile(fs[f])
+
+\* the two formulations of composition agree
+ComposeAgree(fs, vw) == vw = ComposeDecl(fs)
+
+\* evaluation is total: a value of one of the four types for every composed key, or an error, nothing else
+\* (determinism is by construction: Eval is an operator, TLC evaluates it to one value per input)
+SecKeys(vw) == UNION { { <<vw[i].name, vw[i].entries[j].key>> : j \in 1..Len(vw[i].entries) }
+                       : i \in { m \in 1..Len(vw) : vw[m].name # "constants" } }
+GoodScalar(v) == \/ v.t = "str" /\ v.n = 0 /\ v.a = <<>>
+                 \/ v.t = "int" /\ v.s = "" /\ v.a = <<>>
+                 \/ v.t = "bool" /\ v.s = "" /\ v.n \in {0, 1} /\ v.a = <<>>
+GoodVal(v) == \/ GoodScalar(v)
+              \/ v.t = "arr" /\ v.s = "" /\ v.n = 0 /\ \A i \in 1..Len(v.a) : v.a[i].t \in {"str", "bool"} /\ GoodScalar(v.a[i])
+Total(vw, rs) ==
+    /\ rs.o \in {"ok", "error", "open"}
+    /\ \A t \in rs.vals : GoodVal(t.v)
+    /\ \A t1, t2 \in rs.vals : (t1.sec = t2.sec /\ t1.key = t2.key) => t1 = t2
+    /\ rs.o = "error" => (rs.vals = {} /\ rs.openkeys = {})
+    /\ rs.o = "ok" => (rs.openkeys = {} /\ { <<t.sec, t.key>> : t \in rs.vals } = SecKeys(vw))
+    /\ rs.o = "open" => (rs.openkeys # {} /\ ({ <<t.sec, t.key>> : t \in rs.vals } \cup rs.openkeys) = SecKeys(vw))
+
+\* the meaning is a projection of the entry values: error iff some entry (constants included) fails
+MeaningFromEntries(fs, rs, raw) ==
+    IF HasNoEq(fs) THEN rs = Failed
+    ELSE /\ (rs.o = "error") <=> (\E t \in raw : IsErr(t.v))
+         /\ rs.o # "error" => rs.vals = { t \in raw : t.sec # "constants" /\ ~IsOpen(t.v) }
 
 \* per-section scope: what a section yields depends on [constants] and on that section only, and what
 \* [constants] yields depends on nothing else ("entries in any other section can be used only within that same section")
-SectionsIndependent ==
-    \A n \in { view[i].name : i \in 1..Len(view) } :
-        RawVals(Compose(Restrict(files, {"constants", n}))) = { t \in RawVals(view) : t.sec \in {"constants", n} }
+SectionsIndependent(fs, vw, raw, en) ==
+    \A n \in SecNamesOf(vw) :
+        RawVals(Compose(Restrict(fs, {"constants", n})), en) = { t \in raw : t.sec \in {"constants", n} }
 
 \* "[constants] ... are always parsed first": where the section stands in a file is irrelevant
 ConstLast(file) == SelectSeq(file, LAMBDA s : s.name # "constants") \o SelectSeq(file, LAMBDA s : s.name = "constants")
-ConstantsFirst == Eval([f \in 1..Len(files) |-> ConstLast(files[f])], env) = res
+ConstantsFirst(fs, rs, en) == Eval([f \in 1..Len(fs) |-> ConstLast(fs[f])], en) = rs
 
 \* overriding is per key and ordered: adding one more file replaces the expressions of exactly the keys it
 \* writes, keeps every other key where and as it was, and appends its new keys in its own order
-KeySeq(vw, n) == LET i == Pos(vw, LAMBDA x : x.name = n) IN IF i = 0 THEN <<>> ELSE [j \in 1..Len(vw[i].entries) |-> vw[i].entries[j].key]
-EntryOf(vw, n, k) == LET i == Pos(vw, LAMBDA x : x.name = n) IN vw[i].entries[Pos(vw[i].entries, LAMBDA en : en.key = k)]
-SeqSet(q) == { q[i] : i \in 1..Len(q) }
-OverridePerKey ==
-    Len(files) >= 2 =>
-        LET nf == Len(files)
-            prev == Compose(SubSeq(files, 1, nf - 1))
-            lastv == Compose(<<files[nf]>>)
-        IN \A n \in { view[i].name : i \in 1..Len(view) } :
-             /\ KeySeq(view, n) = KeySeq(prev, n) \o SelectSeq(KeySeq(lastv, n), LAMBDA k : k \notin SeqSet(KeySeq(prev, n)))
-             /\ \A k \in SeqSet(KeySeq(view, n)) :
+OverridePerKey(fs, vw) ==
+    Len(fs) >= 2 =>
+        LET nf == Len(fs)
+            prev == Compose(SubSeq(fs, 1, nf - 1))
+            lastv == Compose(<<fs[nf]>>)
+        IN \A n \in SecNamesOf(vw) :
+             /\ KeySeq(vw, n) = KeySeq(prev, n) \o SelectSeq(KeySeq(lastv, n), LAMBDA k : k \notin SeqSet(KeySeq(prev, n)))
+             /\ \A k \in SeqSet(KeySeq(vw, n)) :
                   IF k \in SeqSet(KeySeq(lastv, n))
-                  THEN EntryOf(view, n, k) = [EntryOf(lastv, n, k) EXCEPT !.file = nf]
-                  ELSE EntryOf(view, n, k) = EntryOf(prev, n, k)
+                  THEN EntryOf(vw, n, k) = [EntryOf(lastv, n, k) EXCEPT !.file = nf]
+                  ELSE EntryOf(vw, n, k) = EntryOf(prev, n, k)
 \* ... and a file that writes neither [constants] nor section n leaves what n yields untouched
-UntouchedSectionKeepsValues ==
-    Len(files) >= 2 =>
-        LET nf == Len(files)
-            prev == Compose(SubSeq(files, 1, nf - 1))
-            touched == { files[nf][s].name : s \in 1..Len(files[nf]) }
-        IN \A n \in { prev[i].name : i \in 1..Len(prev) } :
-             (n \notin touched /\ "constants" \notin touched) =>
-                 { t \in RawVals(view) : t.sec = n } = { t \in RawVals(prev) : t.sec = n }
+UntouchedSectionKeepsValues(fs, raw, en) ==
+    Len(fs) >= 2 =>
+        LET nf == Len(fs)
+            prev == Compose(SubSeq(fs, 1, nf - 1))
+            praw == RawVals(prev, en)
+            touched == { fs[nf][s].name : s \in 1..Len(fs[nf]) }
+        IN \A n \in SecNamesOf(prev) :
+             (n \notin touched /\ "constants" \notin touched) => { t \in raw : t.sec = n } = { t \in praw : t.sec = n }
 
 \* a name used before (or without) its definition is an error
-UseBeforeDefIsError ==
-    LET c == Pos(view, LAMBDA x : x.name = "constants")
-        constKeys == IF c = 0 THEN {} ELSE SeqSet(KeySeq(view, "constants"))
-    IN (~HasNoEq(files) /\ \E i \in 1..Len(view) : \E j \in 1..Len(view[i].entries) :
-           /\ view[i].entries[j].kind = "val"
-           /\ \E x \in IdsOfExpr(view[i].entries[j].e) :
+UseBeforeDefIsError(fs, vw, rs) ==
+    LET c == Pos(vw, LAMBDA x : x.name = "constants")
+        constKeys == SeqSet(KeySeq(vw, "constants"))
+    IN (\E i \in 1..Len(vw) : \E j \in 1..Len(vw[i].entries) :
+           /\ vw[i].entries[j].kind = "val"
+           /\ \E x \in IdsOfExpr(vw[i].entries[j].e) :
                  /\ x \notin Builtins
-                 /\ x \notin { view[i].entries[m].key : m \in 1..(j - 1) }
+                 /\ x \notin { vw[i].entries[m].key : m \in 1..(j - 1) }
                  /\ (i = c \/ x \notin constKeys))
-       => res.o = "error"
+       => rs.o = "error"
 
 \* plain literals of the four data types always load, and mean themselves (last one written wins)
 PlainAtom(at) == at.k \in {"str", "int", "bool"}
@@ -132,31 +144,50 @@ PlainExpr(e) == Len(e) = 1 /\ Len(e[1]) = 1 /\
 DenoteAtom(at) == CASE at.k = "str" -> VStr(at.s) [] at.k = "int" -> VInt(at.n) [] OTHER -> VBool(at.n = 1)
 Denote(e) == IF e[1][1].k = "arr" THEN VArr([m \in 1..Len(e[1][1].items) |-> DenoteAtom(e[1][1].items[m][1][1])])
              ELSE DenoteAtom(e[1][1])
-LiteralsLoad ==
-    (\A i \in 1..Len(view) : \A j \in 1..Len(view[i].entries) : view[i].entries[j].kind = "val" /\ PlainExpr(view[i].entries[j].e))
-    => /\ res.o = "ok"
-       /\ \A i \in 1..Len(view) : view[i].name # "constants" =>
-             \A j \in 1..Len(view[i].entries) :
-                [sec |-> view[i].name, key |-> view[i].entries[j].key, v |-> Denote(view[i].entries[j].e)] \in res.vals
+LiteralsLoad(vw, rs) ==
+    (\A i \in 1..Len(vw) : \A j \in 1..Len(vw[i].entries) : vw[i].entries[j].kind = "val" /\ PlainExpr(vw[i].entries[j].e))
+    => /\ rs.o = "ok"
+       /\ \A i \in 1..Len(vw) : vw[i].name # "constants" =>
+             \A j \in 1..Len(vw[i].entries) :
+                [sec |-> vw[i].name, key |-> vw[i].entries[j].key, v |-> Denote(vw[i].entries[j].e)] \in rs.vals
 
 \* cutting a file in two at a section boundary (and giving both halves on the command line, in order) changes nothing
 SplitAt(fs, f, s) == SubSeq(fs, 1, f - 1) \o << SubSeq(fs[f], 1, s), SubSeq(fs[f], s + 1, Len(fs[f])) >> \o SubSeq(fs, f + 1, Len(fs))
-SplitLaw == \A f \in 1..Len(files) : \A s \in 1..(Len(files[f]) - 1) :
-               Eval(SplitAt(files, f, s), DefaultEnv(SplitAt(files, f, s))) = res
+SplitLaw(fs, rs) == \A f \in 1..Len(fs) : \A s \in 1..(Len(fs[f]) - 1) :
+                       Eval(SplitAt(fs, f, s), DefaultEnv(SplitAt(fs, f, s))) = rs
 
 \* both operators may be grouped either way
 \* (failure reasons are not compared; an undecided value is compatible with anything)
 Same(v1, v2) == IsOpen(v1) \/ IsOpen(v2) \/ (IF IsErr(v1) THEN IsErr(v2) ELSE v1 = v2)
-GroupingIrrelevant ==
-    \A i \in 1..Len(view) : \A j \in 1..Len(view[i].entries) :
-        LET raw == RawVals(view)
-            en == view[i].entries[j]
-            mine == { t \in raw : t.sec = view[i].name /\ t.key \in { view[i].entries[m].key : m \in 1..(j - 1) } }
-            cs == IF view[i].name = "constants" THEN {} ELSE { t \in raw : t.sec = "constants" }
+GroupingIrrelevant(vw, raw, en) ==
+    \A i \in 1..Len(vw) : \A j \in 1..Len(vw[i].entries) :
+        LET ent == vw[i].entries[j]
+            mine == { t \in raw : t.sec = vw[i].name /\ t.key \in { vw[i].entries[m].key : m \in 1..(j - 1) } }
+            cs == IF vw[i].name = "constants" THEN {} ELSE { t \in raw : t.sec = "constants" }
             ctx == [consts |-> [k \in { t.key : t \in cs } |-> (CHOOSE t \in cs : t.key = k).v],
                     local |-> [k \in { t.key : t \in mine } |-> (CHOOSE t \in mine : t.key = k).v],
-                    dir |-> "/d", root |-> env.root, home |-> env.home]
-        IN en.kind = "val" => Same(EvalExprR(en.e, ctx), EvalExpr(en.e, ctx))
+                    dir |-> "/d", root |-> en.root, home |-> en.home]
+        IN ent.kind = "val" => Same(EvalExprR(ent.e, ctx), EvalExpr(ent.e, ctx))
+
+Law(name, holds) == holds \/ ~PrintT(<<"LAW VIOLATED", name>>)
+Laws ==
+    LET fs == Decode(code, Level)
+        en == DefaultEnv(fs)
+        vw == Compose(fs)
+        rs == Eval(fs, en)
+        raw == RawVals(vw, en)
+    IN /\ Law("InputsWellFormed", InputsWellFormed(fs))
+       /\ Law("ComposeAgree", ComposeAgree(fs, vw))
+       /\ Law("Total", Total(vw, rs))
+       /\ Law("MeaningFromEntries", MeaningFromEntries(fs, rs, raw))
+       /\ Law("SectionsIndependent", SectionsIndependent(fs, vw, raw, en))
+       /\ Law("ConstantsFirst", ConstantsFirst(fs, rs, en))
+       /\ Law("OverridePerKey", OverridePerKey(fs, vw))
+       /\ Law("UntouchedSectionKeepsValues", UntouchedSectionKeepsValues(fs, raw, en))
+       /\ Law("UseBeforeDefIsError", UseBeforeDefIsError(fs, vw, rs))
+       /\ Law("LiteralsLoad", LiteralsLoad(vw, rs))
+       /\ Law("SplitLaw", SplitLaw(fs, rs))
+       /\ Law("GroupingIrrelevant", GroupingIrrelevant(vw, raw, en))
 
 \* ---- facts (checked once) -------------------------------------------------------------------------------------
 DV == { VStr(""), VStr("u"), VStr("/v"), VStr("w/"), VArr(<<>>), VArr(<<VStr("u")>>), VArr(<<VBool(TRUE)>>),
